@@ -294,6 +294,75 @@ theorem maintenance_noop_equal (s : PosPQ) (draw : Nat → Rat) (c : Rat)
           simp [candidate, this, hlo]
       simp [hany]
 
+/-! ## 4. Boosting never damages the container -/
+
+/-- one operation with boosting at any factor and any draws: some reference list is still refined
+    (same entries up to boosts, heap invariant, positional entries un-boosted) -/
+theorem container_step_any (hl : H.Lawful (Entry.lt PV.lt)) (draw : Nat → Rat) {s : PosPQ} {L}
+    (h : RP s L) (op : PosPQ.Op) : ∃ L', RP (PosPQ.step H draw s op).1 L' := by
+  cases op with
+  | appendPri x p => exact h.appendPri_any hl x p draw
+  | insert p x => exact h.insert_any hl p x draw
+  | popleft =>
+    rcases h.popleft hl draw with ⟨_, hn⟩ | ⟨e, s', hp, _, _, hr, _⟩
+    · exact ⟨L, by simpa only [PosPQ.step, hn] using h⟩
+    · exact ⟨_, by simpa only [PosPQ.step, hp] using hr⟩
+  | remove x =>
+    have := h.remove hl x draw
+    cases hr : s.remove H x draw with
+    | none => exact ⟨L, by simpa only [PosPQ.step, hr] using h⟩
+    | some s' =>
+      rw [hr] at this
+      obtain ⟨e, _, _, hrp, _⟩ := this
+      exact ⟨_, by simpa only [PosPQ.step, hr] using hrp⟩
+  | find key rm =>
+    have := h.find hl key rm
+    cases hr : s.find H key rm with
+    | mk o s' =>
+      rw [hr] at this
+      cases o with
+      | none => obtain ⟨rfl, _⟩ := this; exact ⟨L, by simpa only [PosPQ.step, hr] using h⟩
+      | some x =>
+        obtain ⟨e, _, _, _, hrest⟩ := this
+        cases rm with
+        | false =>
+          simp only [Bool.false_eq_true, if_false] at hrest
+          subst hrest
+          exact ⟨L, by simpa only [PosPQ.step, hr] using h⟩
+        | true =>
+          simp only [if_true] at hrest
+          exact ⟨_, by simpa only [PosPQ.step, hr] using hrest.1⟩
+  | reschedule key np =>
+    have := h.reschedule hl key np
+    cases hr : s.reschedule H key np with
+    | mk o s' =>
+      rw [hr] at this
+      cases o with
+      | none => obtain ⟨rfl, _⟩ := this; exact ⟨L, by simpa only [PosPQ.step, hr] using h⟩
+      | some x =>
+        obtain ⟨e, _, _, _, _, hcase⟩ := this
+        rcases hcase with ⟨_, rfl⟩ | ⟨_, rfl | hrp⟩
+        · exact ⟨L, by simpa only [PosPQ.step, hr] using h⟩
+        · exact ⟨L, by simpa only [PosPQ.step, hr] using h⟩
+        · exact ⟨_, by simpa only [PosPQ.step, hr] using hrp⟩
+  | rescheduleAll gp => exact ⟨_, (h.rescheduleAll hl gp).1⟩
+  | iter => exact ⟨L, by simpa only [PosPQ.step] using h.iter.1⟩
+  | clear => exact ⟨[], RP.clear s⟩
+
+/-- **`container_inv_any_factor`** — for every history of `PosPriorityQueue` operations, with
+    starvation boosting at *any* factor and any sequence of random draws, the queue remains a
+    faithful container: its heap invariant holds, its entries are a permutation of a reference list
+    with distinct increasing arrival stamps (nothing lost, nothing duplicated), and positional
+    entries never carry a boost. -/
+theorem container_inv_any_factor (hl : H.Lawful (Entry.lt PV.lt)) (draw : Nat → Rat)
+    (ops : List PosPQ.Op) : ∀ {s : PosPQ} {L}, RP s L → ∃ L', RP (PosPQ.runFrom H draw s ops).1 L' := by
+  induction ops with
+  | nil => intro s L h; exact ⟨L, h⟩
+  | cons op ops ih =>
+    intro s L h
+    obtain ⟨L1, h1⟩ := container_step_any hl draw h op
+    exact ih h1
+
 /-! ## Non-vacuity -/
 
 example : ({} : PosPQ).CInv := by simp [PosPQ.CInv]
